@@ -10,5 +10,6 @@ func main() {
 		"C03": {Run: c03Run, Replay: c03Replay},
 		"C02": {Run: c02Run, Replay: c02Replay},
 		"C20": {Run: c20Run, Replay: c20Replay},
+		"C14": {Run: c14Run, Replay: c14Replay},
 	})
 }
